@@ -31,8 +31,11 @@ logger = get_logger(__name__)
 
 
 class RemoteServer():
-    def __init__(self, addr, close_on_none=False):
+    def __init__(self, addr, close_on_none=False, stop_requested=None):
+        ''' ``stop_requested`` is an optional callable telling whether the server has been asked to close down.
+        '''
         self.req_addr = addr
+        self.stop_requested = stop_requested
         self.addr = None
         self.socket = None
         self.children = []
@@ -157,6 +160,11 @@ class RemoteServer():
         self.contexts = {}
         try:
             while True:
+                if self.stop_requested is not None and self.stop_requested():
+                    # the asynchronous exception carrying the request can get lost while a client is being served (e.g., the
+                    # import machinery clears any error raised while it probes a module), the flag does not
+                    raise WorkerTerminatedError()
+
                 cli, cli_addr = self.socket.accept()
                 set_linger(cli, False, 0)
                 set_keepalive(cli, True)
@@ -218,7 +226,7 @@ class RemoteServerProcess(ProcessWorker):
         return self._addr
 
     def run(self):
-        self._server = RemoteServer(self._addr, self._close_on_none)
+        self._server = RemoteServer(self._addr, self._close_on_none, stop_requested=lambda: getattr(self, '_terminate_req', False))
         self._server.open_socket()
         self._comms.child_end.send(self._server.addr)
         self._server.install_handlers()
